@@ -71,6 +71,7 @@ func init() {
 }
 
 func runC07(p *chk.Prog, r *chk.Report) {
+	argRolesRule(p, r, 20, allocPkg, "controller")
 	c07Fallback(p, r)
 	assignCommitsRule(p, r)
 	c07Release(p, r)
@@ -416,8 +417,12 @@ func c07Scan(p *chk.Prog, r *chk.Report) {
 			for _, rt := range g.Returns() {
 				if chk.InBody(loop, rt.Node) {
 					res := retResults(rt)
-					if len(res) != 1 || f.MatchNew("POS.IP", res[0]) == nil {
+					if len(res) < 1 || len(res) > 2 || f.MatchNew("POS.IP", res[0]) == nil {
 						okk, why = false, "the cursor loop returns something other than the position's address"
+					} else if len(res) == 2 {
+						if id, isId := ast.Unparen(res[1]).(*ast.Ident); !isId || id.Name != "true" {
+							okk, why = false, "the cursor loop returns a usable address flagged as not found"
+						}
 					}
 				}
 			}
@@ -475,7 +480,7 @@ func c07Scan(p *chk.Prog, r *chk.Report) {
 					continue
 				}
 				res := retResults(rt)
-				if len(res) != 2 || !fb.IsNilLit(res[1]) || !definedBy(g, "RECV.getFreeIPsFromPool(ETC)")(res[0]) {
+				if len(res) != 2 || !successResult(fb, res[1]) || !definedBy(g, "RECV.getFreeIPsFromPool(ETC)")(res[0]) {
 					okk, why = false, "the pool loop is left with something other than a found allocation"
 				}
 			}
